@@ -11,7 +11,7 @@ cd "$W"
 timeout 300 /venv/bin/python "$M/demo.py" "$W" > "$M/demo.clean.out" 2>&1; RC_CLEAN=$?
 git apply "$M/patch.diff" || { echo "patch does not apply"; cd /; git -C /repo worktree remove --force "$W"; exit 3; }
 timeout 300 /venv/bin/python "$M/demo.py" "$W" > "$M/demo.patched.out" 2>&1; RC_PATCHED=$?
-/venv/bin/python -m compileall -q dataflows >/dev/null 2>&1; RC_COMPILE=$?
+/venv/bin/python -c "import dataflows, dataflows.processors" >/dev/null 2>&1; RC_COMPILE=$?
 timeout 1500 /venv/bin/python -m pytest -ra -q -p no:cacheprovider --timeout=900 --continue-on-collection-errors > "$M/suite.patched.out" 2>&1
 SUMMARY=$(tail -1 "$M/suite.patched.out")
 FAILED=$(grep -E "^FAILED" "$M/suite.patched.out" | sed 's/ - .*//' | sort | tr '\n' ' ')
